@@ -11,7 +11,7 @@ DEFAULT_FAMILY = dict(
     n_tasks=(2, 7), fanout=(1, 2), p_second_transition=0.35, p_when=0.6, p_publish=0.4,
     p_join=0.5, p_join_count=0.35, p_items=0.15, p_retry=0.12, p_cmd=0.15, p_delay=0.08,
     p_loop=0.0, p_bad=0.0, p_jinja=0.25, p_inline=0.15, p_dictval=0.2, p_input=0.3,
-    p_output=0.8, p_late_join=0.0,
+    p_output=0.8, p_late_join=0.0, unique_writers=False,
     # history
     steps=(8, 60), w_poll=5, w_report=6, w_ctrl=0.8, w_persist=0.6, w_render=0.3, w_rerun=0.5,
     w_malformed=0.15, p_fail=0.2, p_other_abend=0.04, p_intermediate=0.08, p_item_fail=0.15,
@@ -68,6 +68,7 @@ def gen_definition(rng, fam):
     inbound = {t: set() for t in names}
     cmds = ["noop", "fail", "continue"]
     tok = [0]
+    writers = []
 
     def bad():
         return rng.choice([L.ctx("nope"), L.e("ctx().x.k.z"), L.e("1 + 'a'", "1 + 'a'"), L.e("nofunc(1)")])
@@ -160,7 +161,11 @@ def gen_definition(rng, fam):
             if rng.random() < fam["p_publish"]:
                 pubs = []
                 for _ in range(rng.randint(1, 2)):
-                    var = rng.choice(["x", "y", "z", "dv"])
+                    if fam.get("unique_writers"):
+                        var = "w_%s_%d" % (t, len(nxt))
+                        writers.append(var)
+                    else:
+                        var = rng.choice(["x", "y", "z", "dv"])
                     pubs.append({var: maybe_bad(pub_value(t))})
                 # one-key dicts must be unique
                 seen = set()
@@ -229,6 +234,8 @@ def gen_definition(rng, fam):
             out.append({"oz": L.e("ctx().get('z')")})
         if rng.random() < 0.3:
             out.append({"odv": L.ctx("dv")})
+        for wv in writers[:4]:
+            out.append({"o_" + wv: L.e("ctx().get('%s')" % wv)})
         wf["output"] = out
     return wf, inputs
 
@@ -236,11 +243,14 @@ def gen_definition(rng, fam):
 class Oracle(object):
     """Outcome per (task, route, item, attempt): a pure function of the case seed."""
 
-    def __init__(self, seed, fam):
+    def __init__(self, seed, fam, per_task=False):
         self.seed = seed
         self.fam = fam
+        self.per_task = per_task     # outcomes fixed per task (route numbers depend on arrival order)
 
     def outcome(self, key, attempt):
+        if self.per_task:
+            key = (key[0], None, key[2])
         h = provider.crc(self.seed, key, attempt) / 2.0 ** 32
         pf = self.fam["p_item_fail"] if key[2] is not None else self.fam["p_fail"]
         if h < pf:
